@@ -1,0 +1,59 @@
+//go:build verif
+
+package uniseg
+
+// Add-only exports of unexported functions for the verification harness in
+// /verif. Compiled only with -tags verif; the default build is unchanged.
+
+func VerifGrTransitions(state, prop int) (int, int, int) { return grTransitions(state, prop) }
+
+func VerifWbTransitions(state, prop int) (int, bool, int) { return wbTransitions(state, prop) }
+
+func VerifSbTransitions(state, prop int) (int, bool, int) { return sbTransitions(state, prop) }
+
+func VerifLbTransitions(state, prop int) (int, int, int) { return lbTransitions(state, prop) }
+
+func VerifTransitionGrapheme(state int, r rune) (int, int, bool) {
+	return transitionGraphemeState(state, r)
+}
+
+func VerifTransitionWord(state int, r rune, b []byte, str string) (int, bool) {
+	return transitionWordBreakState(state, r, b, str)
+}
+
+func VerifTransitionSentence(state int, r rune, b []byte, str string) (int, bool) {
+	return transitionSentenceBreakState(state, r, b, str)
+}
+
+func VerifTransitionLine(state int, r rune, b []byte, str string) (int, int) {
+	return transitionLineBreakState(state, r, b, str)
+}
+
+func VerifRuneWidth(r rune, graphemeProperty int) int { return runeWidth(r, graphemeProperty) }
+
+// VerifProperty runs the raw table search: 0 grapheme, 1 word, 2 sentence,
+// 3 line, 4 East Asian width, 5 emoji presentation.
+func VerifProperty(table int, r rune) (int, int) {
+	switch table {
+	case 0:
+		return property(graphemeCodePoints, r), 0
+	case 1:
+		return property(workBreakCodePoints, r), 0
+	case 2:
+		return property(sentenceBreakCodePoints, r), 0
+	case 3:
+		e := propertySearch(lineBreakCodePoints, r)
+		return e[2], e[3]
+	case 4:
+		return property(eastAsianWidth, r), 0
+	case 5:
+		return property(emojiPresentation, r), 0
+	}
+	return -1, -1
+}
+
+func VerifPropertyGraphemes(r rune) int { return propertyGraphemes(r) }
+
+func VerifPropertyLineBreak(r rune) (int, int) { return propertyLineBreak(r) }
+
+func VerifPropertyEastAsianWidth(r rune) int { return propertyEastAsianWidth(r) }
